@@ -154,6 +154,22 @@ _extra = {
     "C18": " Wrong-count argument lists also contain untyped nils (and the nil list).",
     "C19": " Descriptions span several lines (literal and folded blocks, escapes); later runs start the generator under another program name.",
 }
+_extra6 = {
+    "C02": " Round 6: look-alike boolean words with non-ASCII letters; an integer for a string enum is its decimal text.",
+    "C03": " Round 6: string properties also get bare (unquoted) defaults, incl. the empty text.",
+    "C05": " Round 6: any-payloads with integer-keyed maps.",
+    "C06": " Round 6: refused calls that carry signal channels; client writes that return late (parked after delivery) so that a run ID can be reused between 'result stored' and 'result collected'; scripted-peer transcripts with a run-less step-fatal error, one message held back until quiescence.",
+    "C08": " Round 6: flip masks 0x07 / 0x04; decidable rules for the payload header, the inner keys, messages that are not work-done messages, and the UTF-8 of the output ID's text.",
+    "C09": " Round 6: steps that receive and emit a signal under the same ID.",
+    "C11": " Round 6: an initialiser that panics for one run (later calls must still return, quiescence monitor).",
+    "C12": " Round 6: a struct-mapped member under several one-of keys, serialized 300 times; first evaluations on fresh unit definitions by 8 goroutines.",
+    "C14": " Round 6: one-of members that are references into other namespaces (both application orders, also with a target that contradicts the inlining flag); a holder that keeps a self-referential node by value.",
+    "C15": " Round 6: scope pairs whose producer contains an object named like the consumer's root; float ranges one ulp / 1e-10 apart.",
+    "C17": " Round 6: whole-value injections at one-of positions, numbers beyond int64 under any, the path of a number that does not fit its Go field.",
+    "C18": " Round 6: variadic handlers called with every wrong count; dynamic functions whose type handler refuses.",
+}
+for _id, _txt in _extra6.items():
+    _extra[_id] = _extra.get(_id, "") + _txt
 for _id, _txt in _extra.items():
     _c = list(claimed[_id])
     _c[2] = _c[2] + _txt
